@@ -18,6 +18,8 @@
 
 static int tok;
 static int nofail;
+static int mapget;              /* positional get also over Table / Tree bases (open finding: it is a key lookup there) */
+static int getwhile;            /* get(view, 0) is called inside the loop body of the forward iteration (open finding: one cursor) */
 static int has_map_base;        /* a Table / Tree somewhere below: get() takes keys there, not positions */
 static var P0, P1, P2, P3, P4, P5, F0, F1, F2;           /* predicate / map Function objects */
 static var pred_even(var x) { return c_int(x) % 2 == 0 ? x : NULL; }
@@ -158,7 +160,9 @@ int main(int argc, char** argv) {
   while (hc_next(f)) {
     alarm(30);
     if (hc_is(0, "reset")) { cur_exec++; ev_begin("reset"); ev_end(); continue; }
-    if (hc_is(0, "nofail")) { nofail = 1; continue; }        /* in-contract observations only (C18: unchecked builds) */
+    if (hc_is(0, "nofail")) { nofail = 1; continue; }
+    if (hc_is(0, "mapget")) { mapget = 1; continue; }
+    if (hc_is(0, "getwhile")) { getwhile = 1; continue; }        /* in-contract observations only (C18: unchecked builds) */
     if (!hc_is(0, "view")) { fprintf(stderr, "unknown op %s\n", hc_w[0]); return 9; }
     ev_begin("view");
     ev_key("expr");
@@ -173,7 +177,7 @@ int main(int argc, char** argv) {
     volatile size_t n = 0; size_t lim = 400;
     const char* exc = "";
     ev_key("fwd"); ev_s("[");
-    try { var it = iter_init(v); while (it != Terminal && n < lim) { if (n) ev_s(","); item(it); n++; it = iter_next(v, it); } }
+    try { var it = iter_init(v); while (it != Terminal && n < lim) { if (n) ev_s(","); item(it); n++; if (getwhile) get(v, $I(0)); it = iter_next(v, it); } }
     catch (e) { exc = exc_name(e); }
     ev_s("]"); ev_int("fwdn", (long long)n);
     n = 0;
@@ -189,7 +193,7 @@ int main(int argc, char** argv) {
     ev_int("len", L);
     ev_key("get"); ev_s("[");
     volatile int gotget = 0;
-    if (L >= 0 && L <= 400 && implements_method(v, Get, get) && !has_map_base) {
+    if (L >= 0 && L <= 400 && implements_method(v, Get, get) && (!has_map_base || mapget)) {
       gotget = 1;
       try { for (long long i = 0; i < L; i++) { if (i) ev_s(","); item(get(v, $I(i))); } } catch (e) { if (!exc[0]) exc = exc_name(e); ev_s(",-888888"); }
     }
